@@ -3,15 +3,16 @@ import PegVerif.Proofs.TotalLemmas
 /-
   Translation validation of the `-switch` rewrite (`Model/Optimise.lean`).
 
-  The rewrite `optimizeAlternates` is unsound for some grammars (a recorded defect), so it is not
-  proved correct.  Instead `swOK G G'` is a decidable, executable check of ONE pair (grammar,
+  The rewrite `optimizeAlternates` is not proved correct (it was unsound for some grammars before
+  its repair, and its first sets are computed with the interval sets of `set/set.go`).  Instead `swOK G G'` is a decidable, executable check of ONE pair (grammar,
   rewritten grammar); `Proofs/SwitchLemmas.lean` proves that an accepted pair is semantically
   equivalent (`Eval_switch`).
 
   * `firstE G' f e`   a SOUND first set: `some K` promises that `e` can only succeed at a position
                       whose next symbol (`peek`, the end symbol beyond the input) is in `K`;
-                      `none` = unknown.  Unlike the optimiser's own sets these are never incomplete
-                      (an expression that can succeed without consuming gets `none`).
+                      `none` = unknown.  These are never incomplete: an expression that can
+                      succeed without consuming gets `none`, and a sequence that starts with `a?`
+                      or `a*` gets the union of the first sets of `a` and of the rest.
   * `swMatchE F e e'` `e'` is `e` up to rewriting ordered choices into `ualt ks us` or
                       `alt (os ++ [ualt ks us])`, each rewritten choice passing `rearrOK`.
   * `swOK G G'`       same rules (names, ids, order), bodies related, `G'` well-formed (`WFB`, which
@@ -43,43 +44,64 @@ def KeySet.sub (a b : KeySet) : Bool :=
 
 /-! ## 2. Sound first sets -/
 
-/-- Never consumes, and its success says nothing about the next symbol that the rest of a sequence
-    would not also have to accept: the rest starts at the same position. -/
-def Expr.transparent : Expr → Bool
-  | .peekFor _ => true
-  | .peekNot _ => true
-  | .pred _ => true
-  | .stmt _ => true
-  | .act _ => true
-  | .nil => true
-  | _ => false
-
-def unionO : Option KeySet → Option KeySet → Option KeySet
-  | some a, some b => some (a ++ b)
-  | _, _ => none
-
-/-- `some K`: if the expression succeeds at `p` then `K.has (peek inp p)`.  `.` gets `none`: the
-    model's input alphabet is all of `Nat`, so "every symbol but the end symbol" is not a finite
-    list of ranges (and such a set could never be disjoint from another alternative's anyway). -/
-def firstE (G : Grammar) : Nat → Expr → Option KeySet
+/-- First set WITH nullability.  `some (K, n)` promises: if the expression succeeds at `p` then
+    `K.has (peek inp p)`, or `n = true` and it succeeded without consuming (it ended at `p`).
+    `none` = unknown.  `.` gets `none`: the model's input alphabet is all of `Nat`, so "every symbol
+    but the end symbol" is not a finite list of ranges (and such a set could never be disjoint from
+    another alternative's anyway). -/
+def firstZ (G : Grammar) : Nat → Expr → Option (KeySet × Bool)
   | 0, _ => none
-  | _ + 1, .chr c => some [(c, c)]
-  | _ + 1, .rng lo hi => some [(lo, hi)]
-  | _ + 1, .str (c :: _) => some [(c, c)]
+  | _ + 1, .chr c => some ([(c, c)], false)
+  | _ + 1, .rng lo hi => some ([(lo, hi)], false)
+  | _ + 1, .str (c :: _) => some ([(c, c)], false)
   | f + 1, .name n =>
     match G.body n with
-    | some b => firstE G f b
+    | some b => firstZ G f b
     | none => none
-  | f + 1, .inl _ e => firstE G f e
-  | f + 1, .seq (e :: es) => if e.transparent then firstE G f (.seq es) else firstE G f e
-  | _ + 1, .alt [] => some []
-  | f + 1, .alt [e] => firstE G f e
-  | f + 1, .alt (e :: e' :: es) => unionO (firstE G f e) (firstE G f (.alt (e' :: es)))
-  | f + 1, .ualt _ es => firstE G f (.alt es)
-  | f + 1, .plus e => firstE G f e
-  | f + 1, .push e _ => firstE G f e
-  | f + 1, .ipush e _ => firstE G f e
+  | f + 1, .inl _ e => firstZ G f e
+  | _ + 1, .seq [] => some ([], true)
+  | f + 1, .seq (e :: es) =>
+    match firstZ G f e with
+    | none => none
+    | some (K, false) => some (K, false)
+    | some (K, true) =>
+      match firstZ G f (.seq es) with
+      | none => none
+      | some (K2, n2) => some (K ++ K2, n2)
+  | _ + 1, .alt [] => some ([], false)
+  | f + 1, .alt (e :: es) =>
+    match firstZ G f e, firstZ G f (.alt es) with
+    | some (K1, n1), some (K2, n2) => some (K1 ++ K2, n1 || n2)
+    | _, _ => none
+  | f + 1, .ualt _ es => firstZ G f (.alt es)
+  | f + 1, .plus e =>
+    match firstZ G f e with
+    | some (K, false) => some (K, false)
+    | _ => none
+  | f + 1, .query e =>
+    match firstZ G f e with
+    | some (K, _) => some (K, true)
+    | none => none
+  | f + 1, .star e =>
+    match firstZ G f e with
+    | some (K, false) => some (K, true)
+    | _ => none
+  | _ + 1, .peekFor _ => some ([], true)
+  | _ + 1, .peekNot _ => some ([], true)
+  | _ + 1, .pred _ => some ([], true)
+  | _ + 1, .stmt _ => some ([], true)
+  | _ + 1, .act _ => some ([], true)
+  | _ + 1, .nil => some ([], true)
+  | f + 1, .push e _ => firstZ G f e
+  | f + 1, .ipush e _ => firstZ G f e
   | _ + 1, _ => none
+
+/-- `some K`: if the expression succeeds at `p` then `K.has (peek inp p)` (the first set of an
+    expression that must consume). -/
+def firstE (G : Grammar) (f : Nat) (e : Expr) : Option KeySet :=
+  match firstZ G f e with
+  | some (K, false) => some K
+  | _ => none
 
 /-- The fuel `swOK` uses (that of the well-formedness check). -/
 def swFuel (G : Grammar) : Nat := wfFuel G
